@@ -15,11 +15,12 @@ import (
 	"github.com/libsv/go-bt/v2"
 	"github.com/libsv/go-bt/v2/bscript"
 	"github.com/libsv/go-bt/v2/bscript/interpreter"
-	"github.com/libsv/go-bt/v2/bscript/interpreter/scriptflag"
 	"github.com/libsv/go-bt/v2/sighash"
 	"github.com/libsv/go-bt/v2/unlocker"
 	"pgregory.net/rapid"
 
+	"verif/harness/interp"
+	"verif/harness/libexec"
 	"verif/harness/pbt"
 	"verif/harness/sgen"
 )
@@ -50,6 +51,11 @@ type EngCase struct {
 	Procs      int   `json:"procs"`
 	Goroutines int   `json:"goroutines"`
 	Jobs       []Job `json:"jobs"`
+	// SharedOpts (round 11): in the concurrent phase the option values (WithFlags(x), WithForkID(),
+	// WithAfterGenesis(), WithP2SH()) are built once and handed to every Execute call that needs them,
+	// from every goroutine - the way a validator loop holds its options; the sequential phase, which
+	// gives the expected verdicts, builds fresh values per call
+	SharedOpts bool `json:"shared_opts,omitempty"`
 }
 
 // built is a job ready to run: everything the engine gets is rebuilt from these
@@ -149,21 +155,24 @@ func materialise(j Job) (*built, error) {
 	return b, nil
 }
 
-func (b *built) run(e interpreter.Engine) string {
+func (b *built) run(e interpreter.Engine, salt int) string {
 	var err error
+	// libexec.FlagOpts: fresh option values in one of the equivalent forms, or - while a pool is
+	// installed - the pool's shared values
+	std := interp.FlagForkID | interp.FlagAfterGenesis
 	if b.tx == nil && b.flags != nil {
-		err = e.Execute(interpreter.WithScripts(bscript.NewFromBytes(append([]byte{}, b.lock...)), bscript.NewFromBytes(append([]byte{}, b.un...))),
-			interpreter.WithFlags(scriptflag.Flag(*b.flags)))
+		err = e.Execute(append([]interpreter.ExecutionOptionFunc{interpreter.WithScripts(bscript.NewFromBytes(append([]byte{}, b.lock...)), bscript.NewFromBytes(append([]byte{}, b.un...)))},
+			libexec.FlagOpts(interp.Flags(*b.flags), salt)...)...)
 	} else if b.tx == nil {
-		err = e.Execute(interpreter.WithScripts(bscript.NewFromBytes(append([]byte{}, b.lock...)), bscript.NewFromBytes(append([]byte{}, b.un...))),
-			interpreter.WithForkID(), interpreter.WithAfterGenesis())
+		err = e.Execute(append([]interpreter.ExecutionOptionFunc{interpreter.WithScripts(bscript.NewFromBytes(append([]byte{}, b.lock...)), bscript.NewFromBytes(append([]byte{}, b.un...)))},
+			libexec.FlagOpts(std, 1+salt%2)...)...)
 	} else {
 		tx, perr := bt.NewTxFromBytes(b.tx)
 		if perr != nil {
 			return "harness: " + perr.Error()
 		}
-		err = e.Execute(interpreter.WithTx(tx, b.idx, &bt.Output{LockingScript: bscript.NewFromBytes(append([]byte{}, b.prev...)), Satoshis: b.sats}),
-			interpreter.WithForkID(), interpreter.WithAfterGenesis())
+		err = e.Execute(append([]interpreter.ExecutionOptionFunc{interpreter.WithTx(tx, b.idx, &bt.Output{LockingScript: bscript.NewFromBytes(append([]byte{}, b.prev...)), Satoshis: b.sats})},
+			libexec.FlagOpts(std, 1+salt%2)...)...)
 	}
 	if err == nil {
 		return ""
@@ -192,7 +201,12 @@ func checkEngine(ctx *pbt.Ctx, c EngCase) error {
 	eng := interpreter.NewEngine()
 	seq := make([]string, len(bs))
 	for i, b := range bs {
-		seq[i] = b.run(eng)
+		seq[i] = b.run(eng, i)
+	}
+	if c.SharedOpts {
+		libexec.SetPool(libexec.NewOptPool())
+		defer libexec.SetPool(nil)
+		ctx.Label("option values shared by the goroutines")
 	}
 	prev := runtime.GOMAXPROCS(c.Procs)
 	defer runtime.GOMAXPROCS(prev)
@@ -214,7 +228,7 @@ func checkEngine(ctx *pbt.Ctx, c EngCase) error {
 							conc[i] = fmt.Sprintf("panic: %v", x)
 						}
 					}()
-					conc[i] = bs[i].run(eng)
+					conc[i] = bs[i].run(eng, i+g)
 				}()
 				bt8.tick()
 				if j.Yield {
@@ -363,6 +377,7 @@ func genEngine(t *rapid.T) EngCase {
 		}
 		c.Jobs = append(c.Jobs, j)
 	}
+	c.SharedOpts = rapid.Bool().Draw(t, "shared_opts")
 	return c
 }
 
